@@ -147,7 +147,7 @@ class C05Spec(c01.C01Spec):
         sts = set()
         for h in w.hosts:
             if h.node is not None:
-                sts.add((h.node.raftLastApplied, orc.app.model.observe(h.node)))
+                sts.add(repr((h.node.raftLastApplied, orc.app.model.observe(h.node))))
         if len(sts) != 1:
             orc.flag('replicas_differ', 'after the quiet period replicas hold %d different (applied index, state) pairs' % len(sts), dict(wedge=wedge(w)))
 
